@@ -24,6 +24,19 @@ theorem C19_union_intersect {β : Type} (la : List (Iv α)) (oa : List (Op α)) 
       (unionCount (recordsOf la oa) (recordsOf lb ob), interCount (recordsOf la oa) (recordsOf lb ob)) :=
   union_intersect la oa lb ob ha hb
 
+/-- machine arithmetic of the repaired `union_and_intersect`: the intersection never exceeds cov(a), so
+`cov(a) - inter` cannot underflow; `cov(a) - inter + cov(b)` IS the size of the union; and the union is at
+most the greatest stop, i.e. it fits in u64 whenever the coordinates do — no intermediate value of the
+repaired expression exceeds u64::MAX -/
+theorem C19_union_u64_exact {β : Type} (A : List (Iv α)) (B : List (Iv β)) :
+    interCount A B ≤ coveredCount A ∧
+    coveredCount A - interCount A B + coveredCount B = unionCount A B ∧
+    unionCount A B ≤ max (maxStop A) (maxStop B) :=
+  ⟨interCount_le_coveredCount A B, unionCount_eq_sub_add A B, unionCount_le_maxStop A B⟩
+
+/-- witness: `[0,3)` and `[2,5)` cover 5 positions together and share 1 -/
+example : ((Lapper.new [(⟨0, 3, ()⟩ : Iv Unit)]).unionAndIntersect (Lapper.new [(⟨2, 5, ()⟩ : Iv Unit)])) = (5, 1) := by decide +kernel
+
 /-- symmetric in the two arguments -/
 theorem C19_symm {β : Type} (la : List (Iv α)) (oa : List (Op α)) (lb : List (Iv β)) (ob : List (Op β))
     (ha : NonEmptyIvs la oa) (hb : NonEmptyIvs lb ob) :
